@@ -78,6 +78,10 @@ type enc struct {
 	b    []byte
 }
 
+// accessorFails: valid encodings (reader level) whose reflection-filled inner payload a lazy accessor
+// rejects — established at generation, before any damaged input has been decoded
+var accessorFails = map[string]bool{}
+
 func hash8(b []byte) string {
 	h := sha1.Sum(b)
 	return hex.EncodeToString(h[:6])
@@ -165,6 +169,7 @@ func generate(rng *vh.Rng, thorough bool, rep *vh.Report) []enc {
 			rep.Count("gen:full-decode-with-accessors-ok")
 		} else {
 			rep.Count("gen:accessor-panics-on-valid-encoding:" + typ)
+			accessorFails[hash8(b)] = true
 		}
 		got[typ]++
 		encs = append(encs, enc{kind, typ, b})
@@ -289,6 +294,20 @@ func generate(rng *vh.Rng, thorough bool, rep *vh.Report) []enc {
 		b, ok := tryEncode(func() []byte { return t.ToBytes() })
 		add("txrecord", "service.TxRecord", b, ok)
 	}
+	// the other exported entry points of the anchored files: pack.ToPack, TxRecord.ToObject (from a slice),
+	// value.ReadMapValue
+	for i := 0; i < 16*mul; i++ {
+		if p := genPack(rng, 2); p != nil {
+			b, ok := tryEncode(func() []byte { return pack.ToBytesPack(p) })
+			add("topack", "pack.ToPack", b, ok)
+		}
+		t := genTxRecord(rng)
+		b, ok := tryEncode(func() []byte { return t.ToBytes() })
+		add("txobject", "service.TxRecord.ToObject", b, ok)
+		m := genMapValue(rng, 2, false)
+		b, ok = tryEncode(func() []byte { return value.WriteMapValue(gio.NewDataOutputX(), m).ToByteArray() })
+		add("mapvalue", "value.ReadMapValue", b, ok)
+	}
 	// SM packs (not in CreatePack: read through their own Read)
 	for _, name := range smNames {
 		for i := 0; i < 40*mul && got["pack."+name] < 5*mul; i++ {
@@ -358,7 +377,7 @@ func generate(rng *vh.Rng, thorough bool, rep *vh.Report) []enc {
 // C03 / C07 state what they carry; no byte-identical re-encoding is demanded of them here
 // (a composite may hold a CounterPack1; its children's types are checked on their own; the UDP packs
 // are normalised by Process() after Read — C07 states what they carry)
-var reencodeExempt = map[string]bool{"pack.CounterPack1": true, "pack.ServiceRec": true, "pack.CompositePack": true}
+var reencodeExempt = map[string]bool{"pack.CounterPack1": true, "pack.ServiceRec": true, "pack.CompositePack": true, "pack.ToPack": true}
 
 func firstDiff(a, b []byte) int {
 	for i := 0; i < len(a) && i < len(b); i++ {
@@ -519,6 +538,10 @@ func main() {
 		childMain(os.Args[2:])
 		return
 	}
+	if len(os.Args) > 1 && os.Args[1] == "-afterhist" {
+		afterChildMain(os.Args[2:])
+		return
+	}
 	env, rep := vh.Parse("C04")
 	rng := vh.NewRng(env.Seed)
 	self, err := os.Executable()
@@ -584,9 +607,11 @@ func main() {
 	stage("alias", func() { aliasSweep(env, rep, rng, encs) })
 	stage("stream", func() { streamSweep(env, rep, rng, encs) })
 	stage("retry", func() { retrySweep(env, rep, rng, encs) })
+	stage("after", func() { afterSweep(env, rep, rng, encs) })
 	stage("collision", func() { collisionHistory(env, rep, rng) })
 	stage("pooled", func() { pooledHistory(env, rep, rng) })
 	stage("witnesses", func() { witnesses(env, rep, self) })
+	stage("extra-reads", func() { extraSweep(env, rep, rng) })
 	stage("older-version", func() { olderVersion(env, rep, rng) })
 	stage("nested", func() { nestedSweep(env, rep, rng, self) })
 	stage("hostile", func() { hostileSweep(env, rep, rng, encs, self) })
@@ -1149,6 +1174,8 @@ func runReplay(env *vh.Env, rep *vh.Report, self string) {
 					}
 				}
 			}
+		case "after":
+			replayAfter(rep, c)
 		case "retry":
 			retryOne(rep, lazyCase{typ: c.Typ, outer: vh.UnHex(c.Hex), what: c.What})
 		case "reuse":
